@@ -66,9 +66,8 @@ def d2_from_partial(obj, t, k1, k2):
     return np.imag(plain(obj, tc, k1)) / H_CS
 
 
-def d2_fd(obj, t, k):
+def d2_fd(obj, t, k, h=1e-4):
     t = np.asarray(t, dtype=float)
-    h = 1e-4
     tp, tm = t.copy(), t.copy()
     tp[k] += h
     tm[k] -= h
@@ -165,7 +164,10 @@ def post_partial2(self, t, direction1, direction2, result):
     c.check('transform.%s.partial2' % fam, 'equals_derivative_of_partial', ok, tags, {'params': _params(self), 't': t, 'directions': [direction1, direction2], 'got': result, 'want': ref, 'err': err}, prop=P)
     if direction1 == direction2:
         ref2 = d2_fd(self, t, direction1)
-        ok2, err2 = _close(result, ref2, 1e-4 * max(1.0, float(np.max(np.abs(ref2)))))
+        # the accuracy of the difference quotient itself (h^2 times the fourth derivative / 12, large for steep functions: Legendre
+        # polynomials on a small domain, narrow Gaussians) is estimated from the quotient with the doubled step and enters the tolerance
+        est = float(np.max(np.abs(np.asarray(d2_fd(self, t, direction1, h=2e-4), dtype=float) - np.asarray(ref2, dtype=float))))
+        ok2, err2 = _close(result, ref2, 1e-4 * max(1.0, float(np.max(np.abs(ref2)))) + 2.0 * est)
         c.check('transform.%s.partial2' % fam, 'equals_second_difference_of_call', ok2, tags, {'params': _params(self), 't': t, 'got': result, 'want': ref2, 'err': err2}, prop=P)
     c.sig('partial2', fam, own)
 
